@@ -344,41 +344,140 @@ def _r4(ctx):
         raise AnalysisError("only %d unit-cell construction/assignment sites found" % n_sites)
 
 
+class _LammpsBox:
+    """write_box and parse_box evaluated as whole functions (sa/tensym.py) on a generic triclinic cell: what the writer puts on the three
+    `lo_bound hi_bound tilt` lines, and what the reader makes of three generic lines / of the writer's lines.  Nothing depends on how the
+    locals are called or on whether the lines are produced by three statements or by a loop."""
+
+    def __init__(self, ctx):
+        from ..tensym import TenSym, Ten, Obj, FStr
+        from ..poly import Poly, Rat
+        self.ctx = ctx
+        self.Ten, self.Obj, self.TenSym, self.FStr = Ten, Obj, TenSym, FStr
+        self.sym = lambda n: Rat(Poly.var(n))
+        self.wb = ctx.py.func(LMP, "LAMMPSTrajectoryFile.write_box")
+        self.pb = ctx.py.func(LMP, "LAMMPSTrajectoryFile.parse_box")
+        sym = self.sym
+        self.L = [sym("a_length"), sym("b_length"), sym("c_length")]
+        self.A = [sym("alpha"), sym("beta"), sym("gamma")]
+        self.M = [sym("m0"), sym("m1"), sym("m2")]
+        self.written = {}
+
+    def write(self, triclinic=True):
+        """(evaluator, [three FStr lines]) of write_box on the generic cell"""
+        if triclinic in self.written:
+            return self.written[triclinic]
+        Ten, Obj = self.Ten, self.Obj
+        lines = []
+
+        def write(ev, call):
+            lines.append(ev.ex(call.args[0]))
+        ts = self.TenSym(models={"self._fh.write": write, "np.allclose": lambda ev, c: not triclinic})
+        ts.run_fn(self.wb, self=Obj(), lengths=Ten((3,), list(self.L)), angles=Ten((3,), list(self.A)) if triclinic else Ten((3,), [ts.lift(90)] * 3), mins=Ten((3,), list(self.M)))
+        data = [l for l in lines if isinstance(l, self.FStr)]
+        toks = []
+        for l in data:
+            # the line must be its values separated by blanks and ended by a newline: that is what split() takes apart
+            lit = [p_ for p_ in l.parts if isinstance(p_, str)]
+            if not (l.parts and isinstance(l.parts[-1], str) and l.parts[-1].endswith("\n") and all(x.strip() == "" for x in lit) and len(lit) == len(l.values())):
+                raise AnalysisError("write_box: line `%r` is not a blank-separated list of values" % (l,))
+            toks.append(l.values())
+        self.written[triclinic] = (ts, toks, [l for l in lines if isinstance(l, str)])
+        return self.written[triclinic]
+
+    def read(self, toks, style, ts_parent=None):
+        """(evaluator, lengths, angles) of parse_box on the given token lines"""
+        Obj = self.Obj
+        queue = [list(t) for t in toks]
+
+        def readline(ev, call):
+            if not queue:
+                raise AnalysisError("parse_box reads more than %d box lines" % len(toks))
+            line = queue.pop(0)
+            return Obj(tag="line", split=lambda: list(line))
+        ts = self.TenSym(models={"self._fh.readline": readline})
+        if ts_parent is not None:
+            ts.opaque, ts.calls = ts_parent.opaque, ts_parent.calls
+        ts.positive = {"a_length", "b_length", "c_length"}
+        res = ts.run_fn(self.pb, self=Obj(), style=style)
+        if queue:
+            raise AnalysisError("parse_box leaves %d box line(s) unread" % len(queue))
+        lengths, angles = res
+        return ts, ts.to_ten(lengths), ts.to_ten(angles)
+
+
+def _show(ts, v):
+    """repr of a value with the opaque min#k / max#k symbols spelled out as min{...} / max{...}"""
+    text = repr(ts.reduce(v)) if v is not None else "None"
+    for (name, args, r) in sorted(ts.calls, key=lambda c: -len(repr(c[2]))):
+        if name in ("min", "max") and args and hasattr(args[0], "data"):
+            text = text.replace(repr(r), "%s{%s}" % (name, ", ".join(repr(x) for x in args[0].data)))
+    return text
+
+
+_LB_CACHE = {}
+
+
+def _lammps_box(ctx):
+    if id(ctx) not in _LB_CACHE:
+        _LB_CACHE.clear()
+        _LB_CACHE[id(ctx)] = _LammpsBox(ctx)
+    return _LB_CACHE[id(ctx)]
+
+
 def lammps_bounds(ctx, rule):
     """LAMMPS stores a triclinic box as bounding-box extents: bound = lo/hi + min/max(0, xy, xz, xy+xz) (x) and (0, yz) (y).
-    The writer and the reader must use the same offset sets (the reader subtracts what the writer added) and they must be the
-    LAMMPS ones; otherwise lengths read back differ from the cell that was saved."""
-    spec = {"x": {"0.0", "xy", "xz", "xy + xz"}, "y": {"0.0", "yz"}}
+    The writer must add exactly these offsets and the reader must subtract them; otherwise lengths read back differ from the cell that
+    was saved.  Decided on the values: the six numbers the writer puts on the box lines, and the lengths the reader computes from three
+    generic lines."""
+    from ..pysym import Unsupported
+    lb = _lammps_box(ctx)
+    q = "LAMMPSTrajectoryFile.write_box"
+    try:
+        ts, toks, _hdr = lb.write(True)
+    except Unsupported as e:
+        ctx.undecided(rule, lb.wb, LMP, q, "bounding-box offsets", "write_box not evaluable: %s" % e)
+        return
+    if len(toks) != 3 or any(len(t) != 3 for t in toks):
+        ctx.violated(rule, lb.wb, LMP, q, "three lines `lo_bound hi_bound tilt`", "the triclinic branch writes %s values per line" % [len(t) for t in toks])
+        return
+    xy, xz, yz = toks[0][2], toks[1][2], toks[2][2]
+    zero = ts.lift(0)
+    Sx, Sy = [zero, xy, xz, xy + xz], [zero, yz]
 
-    def offsets(fn, by_target):
-        out = {}
-        for n in walk_no_nested(fn):
-            if isinstance(n, ast.Assign) and isinstance(n.value, ast.BinOp) and isinstance(n.value.right, ast.Call):
-                cn = call_name(n.value.right)
-                if cn in ("np.min", "np.max", "min", "max"):
-                    t = dotted(n.targets[0]) or ""
-                    arg = n.value.right.args[0]
-                    if isinstance(arg, ast.Name):
-                        ds = [d for d in local_defs(fn).get(arg.id, [])]
-                        if len(ds) == 1 and isinstance(ds[0], (ast.List, ast.Tuple)):
-                            arg = ds[0]        # min(x_shifts) with x_shifts = [0.0, xy, xz, xy + xz]
-                    elts = {src(e) for e in (arg.elts if isinstance(arg, (ast.List, ast.Tuple)) else n.value.right.args)}
-                    elts = {"0.0" if e in ("0", "0.0") else e for e in elts}
-                    out[t] = (type(n.value.op).__name__, cn.split(".")[-1], elts, n)
-        return out
-    w = offsets(ctx.py.func(LMP, "LAMMPSTrajectoryFile.write_box"), True)
-    r = offsets(ctx.py.func(LMP, "LAMMPSTrajectoryFile.parse_box"), False)
-    pairs = [("xlo_bound", "xlo", "min", "x"), ("xhi_bound", "xhi", "max", "x"), ("ylo_bound", "ylo", "min", "y"), ("yhi_bound", "yhi", "max", "y")]
-    for wb, rb, f, ax in pairs:
-        a, b = w.get(wb), r.get(rb)
-        node = (a or b or (None, None, None, ctx.py.func(LMP, "LAMMPSTrajectoryFile.write_box")))[3]
-        if a is None or b is None:
-            ctx.violated(rule, node, LMP, "LAMMPSTrajectoryFile.write_box", "%s / %s offsets" % (wb, rb), "bounding-box offset of %s not found in %s" % (wb, "writer" if a is None else "reader"))
-            continue
-        ok = a[0] == "Add" and b[0] == "Sub" and a[1] == f and b[1] == f and a[2] == b[2] == spec[ax]
-        ctx.decide(ok, rule, a[3], LMP, "LAMMPSTrajectoryFile.write_box", "%s = %s + %s(%s); reader subtracts the same" % (wb, rb, f, ", ".join(sorted(spec[ax]))), "",
-                   "writer: %s %s %s(%s); reader: %s %s %s(%s); LAMMPS defines %s(%s) - the box read back is not the box that was written whenever the omitted term is the extreme one "
-                   "(e.g. both tilt factors negative)" % (wb, a[0], a[1], sorted(a[2]), rb, b[0], b[1], sorted(b[2]), f, sorted(spec[ax])))
+    def free_of_extremes(v):
+        return not any(str(x).startswith(("min#", "max#")) for x in ts.reduce(v).vars())
+    spec = [("xlo_bound", toks[0][0], lb.M[0], "min", Sx, "0, xy, xz, xy + xz"), ("xhi_bound", toks[0][1], lb.M[0], "max", Sx, "0, xy, xz, xy + xz"),
+            ("ylo_bound", toks[1][0], lb.M[1], "min", Sy, "0, yz"), ("yhi_bound", toks[1][1], lb.M[1], "max", Sy, "0, yz")]
+    for nm, got, m, f, S, txt in spec:
+        rest = got - m - ts.extreme(f, S)
+        ok = free_of_extremes(rest) and (f == "max" or ts.equal(rest, zero))
+        ctx.decide(ok, rule, lb.wb, LMP, q, "%s = %s + %s(%s)" % (nm, nm[:3], f, txt), "",
+                   "the writer puts %s = %r on the line; LAMMPS defines %s + %s(%s) - the box read back is not the box that was written whenever the omitted "
+                   "term is the extreme one (e.g. both tilt factors negative)" % (nm, _show(ts, got), nm[:3], f, txt))
+    for k, nm in ((0, "zlo_bound"), (1, "zhi_bound")):
+        ctx.decide(free_of_extremes(toks[2][k]), rule, lb.wb, LMP, q, "%s carries no offset" % nm, "", "the writer puts %s = %r on the line" % (nm, ts.reduce(toks[2][k])))
+    # ---- reader on three generic lines
+    qr = "LAMMPSTrajectoryFile.parse_box"
+    g = [[lb.sym("t%d%d" % (k, j)) for j in range(3)] for k in range(3)]
+    try:
+        tr, lengths, _angles = lb.read(g, "triclinic")
+    except Unsupported as e:
+        ctx.undecided(rule, lb.pb, LMP, qr, "bounding-box offsets", "parse_box not evaluable: %s" % e)
+        return
+    gxy, gxz, gyz = g[0][2], g[1][2], g[2][2]
+    z = tr.lift(0)
+    gSx, gSy = [z, gxy, gxz, gxy + gxz], [z, gyz]
+    lx = (g[0][1] - tr.extreme("max", gSx)) - (g[0][0] - tr.extreme("min", gSx))
+    ly = (g[1][1] - tr.extreme("max", gSy)) - (g[1][0] - tr.extreme("min", gSy))
+    lz = g[2][1] - g[2][0]
+    want = [("a", lx * lx, "lx"), ("b", ly * ly + gxy * gxy, "sqrt(ly^2 + xy^2)"), ("c", lz * lz + gxz * gxz + gyz * gyz, "sqrt(lz^2 + xz^2 + yz^2)")]
+    for k, (nm, w2, txt) in enumerate(want):
+        got = lengths.data[k] if lengths.shape == (3,) else None
+        ok = got is not None and tr.equal(tr.reduce(got * got), w2)
+        ctx.decide(ok, rule, lb.pb, LMP, qr, "%s = %s with lo/hi = bound - min/max(offsets)" % (nm, txt), "",
+                   "the reader computes %s = %s from the lines `lo_bound hi_bound tilt`; with the LAMMPS offsets (x: 0, xy, xz, xy+xz; y: 0, yz) removed from the bounds it is %s"
+                   % (nm, _show(tr, got), txt))
 
 
 # ---------------------------------------------------------------------------------------------------
@@ -450,72 +549,53 @@ def r7_gram(ctx):
             ok = _same_value(ps, pt, w, got, squared=nm in ("ly", "lz", "yz"))
         ctx.decide(ok, "C17-R7", tf, UC, "lengths_and_angles_to_tilt_factors", "%s equals the corresponding box-vector component" % nm, "",
                    "tilt factor %s = %r differs from the component %r of the box vectors" % (nm, pt.reduce(got), ps.reduce(w)))
-    wb = ctx.py.func(LMP, "LAMMPSTrajectoryFile.write_box")
-    asg = []
-    for n in walk_no_nested(wb):
-        if isinstance(n, ast.If):
-            for blk in (n.body, n.orelse):
-                if any(isinstance(s_, ast.Assign) and dotted(s_.targets[0]) == "lx" for s_ in blk):
-                    asg = [s_ for s_ in blk if isinstance(s_, ast.Assign)]
+    # ---- the six numbers the writer derives (from the three lines it writes), against the free function
+    lb = _lammps_box(ctx)
+    wb, pb = lb.wb, lb.pb
     try:
-        pw = PySym({"lengths": Vec([sym("a_length"), sym("b_length"), sym("c_length")]), "angles": Vec([sym("alpha"), sym("beta"), sym("gamma")])})
-        pw.run([s_ for s_ in asg if all(isinstance(x, ast.Name) for t_ in s_.targets for x in (t_.elts if isinstance(t_, ast.Tuple) else [t_]))])
+        pw, toks, _hdr = lb.write(True)
     except Unsupported as e:
         ctx.undecided("C17-R7", wb, LMP, "LAMMPSTrajectoryFile.write_box", "tilt factors", "not evaluable: %s" % e)
         return
+    if len(toks) != 3 or any(len(t_) != 3 for t_ in toks):
+        ctx.undecided("C17-R7", wb, LMP, "LAMMPSTrajectoryFile.write_box", "tilt factors", "the triclinic branch does not write three lines of three values")
+        return
+    xy_, xz_, yz_ = toks[0][2], toks[1][2], toks[2][2]
+    z_ = pw.lift(0)
+    Sx, Sy = [z_, xy_, xz_, xy_ + xz_], [z_, yz_]
+    wrote = {"lx": toks[0][1] - toks[0][0] - pw.extreme("max", Sx) + pw.extreme("min", Sx),
+             "ly": toks[1][1] - toks[1][0] - pw.extreme("max", Sy) + pw.extreme("min", Sy),
+             "lz": toks[2][1] - toks[2][0], "xy": xy_, "xz": xz_, "yz": yz_}
     for nm, w in zip(names, t):
-        got = pw.env.get(nm)
-        ok = got is not None and _same_value(pt, pw, w, got, squared=nm in ("ly", "lz", "yz"))
-        ctx.decide(ok, "C17-R7", wb, LMP, "LAMMPSTrajectoryFile.write_box", "%s as in lengths_and_angles_to_tilt_factors" % nm, "", "write_box computes %s = %r" % (nm, got))
-    # reader: inverse of the writer for positive lengths
-    pb = ctx.py.func(LMP, "LAMMPSTrajectoryFile.parse_box")
-    # the reader's triclinic block, from the unpacking of the three tilt factors on, evaluated on what the writer put into the file:
-    # line k holds `<lo_bound> <hi_bound> <tilt>`, i.e. box[k, 0], box[k, 1] and factors[k]
-    blk = None
-    for n in ast.walk(pb):
-        if isinstance(n, ast.If):
-            for body in (n.body, n.orelse):
-                if any(isinstance(s_, ast.Assign) and isinstance(s_.value, ast.Call) and call_name(s_.value) in ("np.arccos", "np.arctan2", "math.acos") for s_ in body):
-                    blk = body
-    if blk is None:
-        ctx.undecided("C17-R7", pb, LMP, "LAMMPSTrajectoryFile.parse_box", "inverse of write_box", "the triclinic block of the reader was not found")
-        return
-    start = 0
-    for k_, s_ in enumerate(blk):
-        if isinstance(s_, ast.Assign) and isinstance(s_.targets[0], ast.Tuple) and [dotted(e) for e in s_.targets[0].elts] == ["xy", "xz", "yz"]:
-            start = k_ + 1
-    stmts = [s_ for s_ in blk[start:] if isinstance(s_, ast.Assign) and all(isinstance(t_, ast.Name) for t_ in s_.targets) and not any(isinstance(c_, ast.Attribute) and c_.attr in ("readline", "_fh") for c_ in ast.walk(s_))]
-    need = ["xlo_bound", "xhi_bound", "ylo_bound", "yhi_bound", "zlo_bound", "zhi_bound", "xy", "xz", "yz"]
-    pw.positive = {"a_length", "b_length", "c_length"}
-    if any(nm not in pw.env for nm in need):
-        ctx.undecided("C17-R7", wb, LMP, "LAMMPSTrajectoryFile.write_box", "box bounds", "assignments to %s not found in write_box" % [nm for nm in need if nm not in pw.env])
-        return
-    env2 = {"xy": pw.env["xy"], "xz": pw.env["xz"], "yz": pw.env["yz"]}
-    for k_, ax in enumerate("xyz"):
-        env2["box[%d,0]" % k_] = pw.env[ax + "lo_bound"]
-        env2["box[%d,1]" % k_] = pw.env[ax + "hi_bound"]
-    pw.env = env2
+        got = wrote[nm]
+        ok = _same_value(pt, pw, w, got, squared=nm in ("ly", "lz", "yz"))
+        ctx.decide(ok, "C17-R7", wb, LMP, "LAMMPSTrajectoryFile.write_box", "%s as in lengths_and_angles_to_tilt_factors" % nm, "", "write_box writes %s = %r" % (nm, pw.reduce(got)))
+    # ---- reader: inverse of the writer for positive lengths - parse_box evaluated on the very lines write_box produced
     try:
-        pw.run(stmts)
+        pr, lengths, angles = lb.read(toks, "triclinic", ts_parent=pw)
     except Unsupported as e:
         ctx.undecided("C17-R7", pb, LMP, "LAMMPSTrajectoryFile.parse_box", "inverse of write_box", "not evaluable: %s" % e)
         return
-    for nm, w in (("a", sym("a_length")), ("b", sym("b_length")), ("c", sym("c_length"))):
-        got = pw.env.get(nm)
-        ok = got is not None and pw.equal(got * got, w * w)
-        ctx.decide(ok, "C17-R7", pb, LMP, "LAMMPSTrajectoryFile.parse_box", "parse_box(write_box(cell)): %s recovered" % nm, "", "length %s read back as %r" % (nm, pw.reduce(got) if got is not None else None))
-    for nm in ("alpha", "beta", "gamma"):
-        got = pw.env.get(nm)
+    if lengths.shape != (3,) or angles.shape != (3,):
+        ctx.undecided("C17-R7", pb, LMP, "LAMMPSTrajectoryFile.parse_box", "inverse of write_box", "parse_box does not return three lengths and three angles")
+        return
+    for k_, (nm, w) in enumerate((("a", sym("a_length")), ("b", sym("b_length")), ("c", sym("c_length")))):
+        got = lengths.data[k_]
+        ok = pr.equal(got * got, w * w)
+        ctx.decide(ok, "C17-R7", pb, LMP, "LAMMPSTrajectoryFile.parse_box", "parse_box(write_box(cell)): %s recovered" % nm, "", "length %s read back as %s" % (nm, _show(pr, got)))
+    for k_, nm in enumerate(("alpha", "beta", "gamma")):
+        got = angles.data[k_]                                   # in degrees: 180 * acos(arg) / pi
         ok = False
         why = repr(got)
-        if got is not None and len(got.vars()) == 1:
-            f = pw.opaque.get(list(got.vars())[0])
-            if f and f[0] == "acos":
+        acs = [v for v in got.vars() if (pr.opaque.get(v) or ("",))[0] == "acos"]
+        if len(acs) == 1:
+            f = pr.opaque.get(acs[0])
+            if pr.equal(got * sym("pi"), pr.fn("acos", f[1][0]) * 180):
                 arg = f[1][0]
-                want = pw.fn("cos", sym(nm) * sym("pi") / 180)
+                want = pr.fn("cos", sym(nm) * sym("pi") / 180)
                 # compare squares when the argument carries the square roots b', c' of the reader
-                ok = pw.equal(arg, want) or pw.equal(pw.reduce(arg * arg), want * want)
-                why = repr(pw.reduce(arg))
+                ok = pr.equal(arg, want) or pr.equal(pr.reduce(arg * arg), want * want)
+                why = repr(pr.reduce(arg))
         ctx.decide(ok, "C17-R7", pb, LMP, "LAMMPSTrajectoryFile.parse_box", "parse_box(write_box(cell)): cos(%s) recovered" % nm, "", "the cosine of %s read back is %s" % (nm, why))
 
 
